@@ -1,7 +1,7 @@
 SPECIFICATION MCSpec
 CONSTANTS
   Cases = {}
-  W64 = 4194304
+  W64 = 67108864
   W32 = 4096
   BW = 1000
   Bases = {0, 1, 13}
